@@ -227,7 +227,7 @@ Verdict(e) ==
                P_C06_AppendOnly |-> P_C06_AppendOnly(pre, post),
                P_C06_Numbered |-> P_C06_Numbered(pre, post),
                P_C06_Bytes |-> P_C06_Bytes(e),
-               P_C06_NewEntry |-> P_C06_NewEntry(e),
+               P_C06_NewEntry |-> P_C06_NewEntry(e) /\ e.stamps_ok,      \* stamps_ok: the time in the new names is the UTC time of the run
                P_C14_Frame |-> P_C14_Frame(e, pre, post, IF o.op \in {"create", "createsf"} THEN InScope(pre, dk, o, ign) ELSE {}),
                P_C14_Scope |-> P_C14_Scope(pre, post, dk, o, ign),
                P_C14_DiskSame |-> e.pre.disk = e.post.disk,
